@@ -120,7 +120,8 @@ def rule_plumbing(ctx):
     for p, want in (("pitch_margin", "-1"), ("piano_range", "False"), ("binary", "False")):
         ctx.check(kw.get(p) == want, "F4d-plumb", f"pitch-class roll forces {p}={want}", func=pc, node=calls[0],
                   construct=f"pc-forced:{p}", msg=f"the octave fold needs the full 128-row, non-binary roll ({p}={want}); found {kw.get(p)}")
-    folds = [n for n in own_nodes(pc.node) if isinstance(n, ast.AugAssign) and "pc_pianoroll" in norm(n.target) and isinstance(n.op, ast.Add)]
+    folds = [n for n in own_nodes(pc.node) if isinstance(n, ast.AugAssign) and isinstance(n.target, ast.Subscript) and isinstance(n.op, ast.Add)
+             and isinstance(getattr(n, "_parent", None), ast.For)]
     bins = [n for n in own_nodes(pc.node) if isinstance(n, ast.If) and norm(n.test) == "binary"]
     ctx.check(bool(folds) and bool(bins) and bins[0].lineno > folds[0].lineno, "F4d-plumb", "binary applied after the fold", func=pc,
               construct="pc-binary-order", msg="`binary` must be applied to the folded roll (max over octaves would otherwise be lost)")
@@ -130,23 +131,32 @@ def rule_range(ctx):
     ctx.rule("RANGE", "piano range: rows 21..108 (88 rows); the index rows are shifted by the same 21; the inverse uses 21 for an "
                       "88-row roll and 0 for a 128-row roll")
     mk = ctx.prog.func(f"{M}:_make_pianoroll", "RANGE")
-    sl = [n for n in own_nodes(mk.node) if isinstance(n, ast.Subscript) and norm(n.value) == "pianoroll" and isinstance(n.slice, ast.Tuple)
+    rolls = {norm(a.targets[0]) for a in own_nodes(mk.node) if isinstance(a, ast.Assign) and isinstance(a.value, ast.Call) and norm(a.value.func).endswith("csc_matrix")}
+    sl = [n for n in own_nodes(mk.node) if isinstance(n, ast.Subscript) and norm(n.value) in rolls and isinstance(n.slice, ast.Tuple)
           and isinstance(n.slice.elts[0], ast.Slice)]
     ctx.require(sl, "RANGE", mk.qname, "piano_range slice not found")
     s = sl[0].slice.elts[0]
     lo = s.lower.value if isinstance(s.lower, ast.Constant) else None
     hi = s.upper.value if isinstance(s.upper, ast.Constant) else None
-    shift = [n for n in own_nodes(mk.node) if isinstance(n, ast.Assign) and norm(n.targets[0]) == "pr_idx_pitch_start" and isinstance(n.value, ast.Constant)]
-    shifts = sorted(a.value.value for a in shift)
+    byname = {}
+    for n in own_nodes(mk.node):
+        if isinstance(n, ast.Assign) and isinstance(n.targets[0], ast.Name) and isinstance(n.value, ast.Constant) and isinstance(n.value.value, int) \
+                and not isinstance(n.value.value, bool):
+            byname.setdefault(n.targets[0].id, []).append(n.value.value)
+    shifts = next((sorted(v) for v in byname.values() if sorted(v) == [0, 21]), [])
     ctx.check(lo == 21 and hi == 109 and shifts == [0, 21], "RANGE", "slice 21:109, shift 21", func=mk, node=sl[0], construct="piano-range",
               msg=f"piano range slice is {lo}:{hi} with index shift {shifts}; 88 keys are MIDI 21..108")
     inv = ctx.prog.func(f"{M}:pianoroll_to_notearray", "RANGE")
     ctx.touch(inv)
-    consts = sorted({a.value.value for a in own_nodes(inv.node) if isinstance(a, ast.Assign) and norm(a.targets[0]) == "init_pitch"
-                     and isinstance(a.value, ast.Constant)})
+    byname = {}
+    for a in own_nodes(inv.node):
+        if isinstance(a, ast.Assign) and isinstance(a.targets[0], ast.Name) and isinstance(a.value, ast.Constant) and isinstance(a.value.value, int):
+            byname.setdefault(a.targets[0].id, set()).add(a.value.value)
+    ip = next((k for k, v in byname.items() if v == {0, 21}), None)
+    consts = sorted(byname.get(ip, []))
     shapes = sorted({c.comparators[0].value for c in own_nodes(inv.node) if isinstance(c, ast.Compare) and norm(c.left).endswith(".shape[0]")
                      and isinstance(c.comparators[0], ast.Constant)})
-    uses = any(isinstance(b, ast.BinOp) and isinstance(b.op, ast.Add) and "init_pitch" in (norm(b.left), norm(b.right)) for b in ast.walk(inv.node))
+    uses = any(isinstance(b, ast.BinOp) and isinstance(b.op, ast.Add) and ip in (norm(b.left), norm(b.right)) for b in ast.walk(inv.node))
     ctx.check(consts == [0, 21] and shapes == [88, 128] and uses, "RANGE", "inverse: 128 rows -> 0, 88 rows -> 21", func=inv,
               construct="inverse-range",
               msg=f"pianoroll_to_notearray must accept 128- and 88-row rolls and add 0 resp. 21 to the row index "
